@@ -65,12 +65,20 @@ def run(ctx):
             {"id": "d", "type": {"k": "SET OF", "elem": {"k": "REF", "name": "SoI"}, "size": None}}]}),
         ("BigI", {"k": "INTEGER", "cons": genmod.cons(-(1 << 62), (1 << 62))}),
         ("BsZ", {"k": "BIT STRING", "size": None}),      # + explicit values whose used bits of the last octet are all 0 (EXTRA_VALUES)
-        # DEFAULT-valued extension additions (non-zero defaults: a zero default is stored inline)
+        # DEFAULT-valued extension additions (F16, repaired); a zero / FALSE default of a native type is stored inline
         ("SqE", {"k": "SEQUENCE", "ext": 1, "comps": [
             {"id": "a", "type": {"k": "INTEGER", "cons": genmod.cons(0, 255)}},
             {"id": "b", "type": {"k": "INTEGER", "cons": genmod.cons(0, 255)}, "opt": ("DEFAULT", "5", 5)},
             {"id": "c", "type": {"k": "BOOLEAN"}, "opt": "OPTIONAL"},
-            {"id": "d", "type": {"k": "INTEGER", "cons": genmod.cons(0, 65535)}, "opt": ("DEFAULT", "300", 300)}]})]}
+            {"id": "d", "type": {"k": "INTEGER", "cons": genmod.cons(0, 65535)}, "opt": ("DEFAULT", "300", 300)},
+            {"id": "z", "type": {"k": "INTEGER", "cons": genmod.cons(0, 255)}, "opt": ("DEFAULT", "0", 0)},
+            {"id": "f", "type": {"k": "BOOLEAN"}, "opt": ("DEFAULT", "FALSE", False)}]}),
+        # SET with DEFAULT components (F56, repaired: SET_encode_xer wrote a stored default, skipped an absent one)
+        ("StD", {"k": "SET", "comps": [
+            {"id": "a", "type": {"k": "INTEGER", "cons": None}, "opt": ("DEFAULT", "5", 5)},
+            {"id": "z", "type": {"k": "INTEGER", "cons": genmod.cons(0, 255)}, "opt": ("DEFAULT", "0", 0)},
+            {"id": "b", "type": {"k": "BOOLEAN"}, "opt": ("DEFAULT", "TRUE", True)},
+            {"id": "m", "type": {"k": "BOOLEAN"}}]})]}
     stats = collections.Counter(); fails = []
     for mi, m in enumerate([fixed] + mods):
         wide = (mi % 2 == 0)
@@ -92,12 +100,8 @@ def run(ctx):
                     if not kinds or alt == base: continue
                     for syn in CANON:
                         if c01.skip_region(syn, feats, collections.Counter()): continue
-                        # F17 (bit-noise) and F18 (int-pad) are repaired: those kinds are checked under uper as well;
-                        # only the kind of a finding that is still `known` stays out
-                        if syn == "uper" and "default-explicit" in kinds and ctx.match_finding(lambda f: f["id"] == "F16"):
-                            stats["skipped_uper_F16"] += 1; continue
-                        if syn == "oer" and "setof-perm" in kinds: stats["skipped_oer_F55"] += 1; continue
-                        if syn == "cxer" and "default-explicit" in kinds: stats["skipped_cxer_F56"] += 1; continue
+                        # F16 (default-explicit under uper), F17 (bit-noise), F18 (int-pad), F55 (setof-perm under oer) and
+                        # F56 (default-explicit under cxer) are repaired: every kind is checked under every canonical syntax
                         lines.append(f"@{n} enc {syn} {base}"); meta.append((n, syn, "base", frozenset(kinds)))
                         lines.append(f"@{n} enc {syn} {alt}"); meta.append((n, syn, "alt", frozenset(kinds)))
         outs, _ = ctx.run_c_parallel(exe, lines)
